@@ -1,5 +1,6 @@
-(* Proofs for C19: soundness of the boolean oracles, sv_normalize, dominant_bpm (guarded) and the
-   refutations of the unguarded statement. *)
+(* Proofs for C19: soundness of the boolean oracles, sv_normalize, dominant_bpm, the refutations for the OLD
+   dominant_bpm model, scroll_speed for games without SVs (section E).  scroll_speed for charts WITH an SV list:
+   Proofs/ScrollSvProofs.v. *)
 From Coq Require Import ZArith QArith Qabs List Bool Lia Lqa Permutation.
 From RV Require Import Base.PyNum Algo.DominantBpm Algo.ScrollSpeed Algo.AnalysisSpec.
 Import ListNotations.
@@ -597,19 +598,14 @@ Proof.
   apply sv_normalize_with_spec. apply wf_chart_pos. exact W.
 Qed.
 
-(* ------------------------------------------------------------------ D. scroll_speed on charts WITH an SV list:
-   small-scope result (PARTIAL).
-   FULL STATEMENT (proved in section E for charts of games without SVs, NOT proved for charts with an SV list):
-     forall c ref, wf_chart c = true -> exists o, scroll_speed_with c ref = Some o /\ scroll_ok 0 c ref o.
-   What is proved here: the statement for EVERY chart of the small scope below (all row orders of <= 3 tempo rows on
-   times {0,1,2} with bpms {1,2}; no SV list, or all sequences of <= 2 SV rows on times {-1..3} with multipliers
-   {2, 1/2} -- so SVs before the first tempo point, at tempo points, coinciding with each other, after the last
-   note; four note sets), reference 3, by evaluation of the proven-sound oracle on the model's output.
-   Missing for SV charts: (i) the SV table (groupby-last over tempo resets / head-tail markers / SV rows, then ffill)
-   carries sv_at at every key, (ii) the outer merge yields one row per key of the SV table, (iii) ffill of the bpm
-   column over SV-only keys.  The general facts about stable sort / ffill / bfill / latest_le needed for them are
-   proved in section E (ffill_go_char, filled_rows, ...).  Beyond the small scope the SV part rests on the
-   correspondence run + oracle on the implementation's outputs. *)
+(* ------------------------------------------------------------------ D. scroll_speed, exhaustive small scope
+   (kept as an independent cross-check of model + oracle; the statement for ALL charts of the domain -- with or
+   without an SV list -- is proved in section E below (games without SVs) and in Proofs/ScrollSvProofs.v (charts
+   with an SV list: [scroll_speed_with_sv], [scroll_speed_spec])).
+   Here: the statement for EVERY chart of the small scope below (all row orders of <= 3 tempo rows on times {0,1,2}
+   with bpms {1,2}; no SV list, or all sequences of <= 2 SV rows on times {-1..3} with multipliers {2, 1/2} -- so SVs
+   before the first tempo point, at tempo points, coinciding with each other, after the last note; four note sets),
+   reference 3, by evaluation of the proven-sound oracle on the model's output. *)
 Fixpoint seqs_upto {A} (opts : list A) (n : nat) : list (list A) :=
   match n with
   | O => [[]]
@@ -636,7 +632,7 @@ Proof.
   rewrite forallb_forall in H. exact (H n Hn).
 Qed.
 
-Theorem scroll_speed_spec_partial b s n :
+Theorem scroll_speed_small_scope b s n :
   In b small_tempos -> In s small_svs -> In n small_notes -> wf_chart (mkChart b s n) = true ->
   exists o, scroll_speed_with (mkChart b s n) 3 = Some o /\ scroll_ok 0 (mkChart b s n) 3 o.
 Proof.
